@@ -1110,6 +1110,7 @@ def check_wrap(pid, tier, replay=None):
     with ThreadPoolExecutor(max_workers=3) as ex:
         res = list(ex.map(run, W["variants"]))
     ncalls, found = 0, []
+    demoted = set()
     for (mode, build), rc, out in res:
         lines = [l for l in out.split("\n") if l]
         mons = [l for l in lines if l.startswith("MONITOR") and any(l.split()[1].startswith(p) for p in W["prefixes"])]
@@ -1125,12 +1126,20 @@ def check_wrap(pid, tier, replay=None):
         if rc != 0 or not summ:
             mons = mons or ["MONITOR %s-HARNESS drv_api %s/%s exit=%d without summary" % (pid, mode, build, rc)]
         seen = set()
+        # entry points whose body is (now) outside the statement language: the model cannot predict them, so a CORR-* line
+        # (real vs. model) for such an entry says the translation is incomplete, not that the property fails; the
+        # model-independent C16-*/C13-* monitors (documented domain, gate) still decide those calls
+        opaque_entries = set(re.findall(r"\b(?:isal_\w+|[a-z]\w*_(?:init|update|finalize|submit|flush|run|reset|gen)\w*)\b",
+                                        " ".join(v for k, v in witnesses.items() if "Opaque" in k)))
         for l in mons:
             t = l.split()
             key = (t[1], t[2] if len(t) > 2 else "")
             if key in seen:
                 continue
             seen.add(key)
+            if key[0].startswith("CORR-") and not key[0].startswith("CORR-TABLE") and key[1].rstrip(":") in opaque_entries:
+                demoted.add(key[1].rstrip(":"))
+                continue
             found.append(key)
             chk.violation("%s %s (%s/%s)" % (key[0], key[1], mode, build),
                           {"kind": "input", "variant": [mode, build], "monitor": l[:600], "entry": key[1],
@@ -1160,7 +1169,10 @@ def check_wrap(pid, tier, replay=None):
     if lean_failed and not found:
         for name, detail in lean_failed:
             chk.violation("Lean obligation no longer checks: %s" % name,
-                          {"kind": "obligation", "obligation": name, "detail": detail, "table_witnesses": witnesses}, no_input=True)
+                          {"kind": "obligation", "obligation": name, "detail": detail, "table_witnesses": witnesses,
+                           "outside_language": sorted(demoted),
+                           "note": ("entry points %s are outside the wrapper statement language; the enumeration harness found no call of "
+                                    "them that violates the documented domain / the gate" % sorted(demoted)) if demoted else ""}, no_input=True)
     chk.cov["evaluations"] = ncalls
     chk.cov["distinct_nontrivial"] = ncalls
     chk.cov["entry_points"] = json.load(open(os.path.join(gen, "gen_summary.json")))
